@@ -503,6 +503,19 @@ func c01ProductFamilies(thorough bool) []c01Product {
 			{"", "</" + el + ">"},
 		}})
 	}
+	// the end tag of a raw-text element spelled inside its own start tag: an attribute name or value for a tokenizer
+	{
+		var opens, ends []string
+		for _, el := range rawEls {
+			opens = append(opens, "<"+el)
+			ends = append(ends, "</"+el+">")
+		}
+		for i := range opens {
+			raws = append(raws, c01Product{"rawstart-" + rawEls[i], [][]string{
+				{opens[i]}, {" a=", " ", " a=x", " a ", " a=\"b\"", "/"}, {ends[i], "</" + strings.ToUpper(rawEls[i]) + " >", "<!--"}, {S, "<b>" + S, " c=\"" + S + "\">"}, {"", ends[i]},
+			}})
+		}
+	}
 	// tag and attribute names split over text nodes by constructs that emit nothing or by a conditional
 	split := []string{"", "{{$x := 1}}", "{{if $.C}}/{{end}}", "{{if $.C}} {{end}}"}
 	nsNames, nsTail := []string{"", "cript", " title", " data-x"}, []string{"", "</script>"}
